@@ -9,6 +9,7 @@ pysat: WCNF.append/copy, RC2.compute/cost/add_clause, IDPool.id
 from __future__ import annotations
 
 from . import formula as F
+from .front import AnalysisError
 from .absvals import (Const, Sym, PredV, FormulaV, LinV, Ref, TupleV, ElemV, FuncV, ClassV, ExtV, MethV, NameV, ExcV,
                       LambdaV, HList, HDict, HObj, HSolver, HWcnf, HOpaque, desc, pred_not, pred_and, pred_or, PTRUE,
                       PFALSE)
@@ -611,6 +612,7 @@ def _seg_desc(s):
 
 @ext("builtins.range")
 def _range(interp, args, kwargs, node):
+    args = [Const(a.lin[1]) if isinstance(a, LinV) and F.lin_is_const(a.lin) else a for a in args]
     if all(isinstance(a, Const) for a in args):
         try:
             return interp.new_list([Const(i) for i in range(*[a.value for a in args])])
@@ -651,8 +653,35 @@ def _enumerate(interp, args, kwargs, node):
     return interp.alloc(HList(out))
 
 
+@ext("itertools.count")
+def _count(interp, args, kwargs, node):
+    start = args[0] if args else kwargs.get("start", Const(0))
+    step = args[1] if len(args) > 1 else kwargs.get("step", Const(1))
+    return interp.alloc(HOpaque("count", {"start": start, "step": step}))
+
+
+def _is_count(interp, a):
+    return isinstance(a, Ref) and isinstance(interp.deref(a), HOpaque) and interp.deref(a).typ == "count"
+
+
 @ext("builtins.zip")
 def _zip(interp, args, kwargs, node):
+    if len(args) == 2 and (_is_count(interp, args[0]) != _is_count(interp, args[1])):
+        # zip(count(s), xs) is enumerate(xs, s) (and zip(xs, count(s)) the same with the components swapped)
+        first = _is_count(interp, args[0])
+        c = interp.deref(args[0] if first else args[1])
+        if not (isinstance(c.attrs.get("step"), Const) and c.attrs["step"].value == 1):
+            interp.err(node, "itertools.count with a step other than 1")
+        en = _enumerate(interp, [args[1] if first else args[0], c.attrs["start"]], {}, node)
+        if first:
+            return en
+        out = []
+        for sg in interp.deref(en).segs:
+            if sg[0] == "one":
+                out.append(("one", TupleV((sg[1].items[1], sg[1].items[0]))))
+            else:
+                out.append(sg[:4] + (TupleV((sg[4].items[1], sg[4].items[0])),))
+        return interp.alloc(HList(out))
     lists = [interp.segments(a, node) for a in args]
     if all(all(s[0] == "one" for s in l) for l in lists):
         n = min(len(l) for l in lists) if lists else 0
@@ -738,9 +767,40 @@ def _sorted(interp, args, kwargs, node):
             return interp.new_list([Const(x) for x in vals])
         except TypeError:
             pass
+    if key is not None and segs and all(s[0] == "one" for s in segs) and (rev is None or isinstance(rev, Const)):
+        # concrete elements and a key function with concrete values: the sorted sequence itself (sorted is stable)
+        try:
+            kv = [interp.call(key, [s[1]], {}, node) for s in segs]
+        except AnalysisError:
+            kv = None
+        if kv is not None and all(isinstance(k, Const) for k in kv):
+            try:
+                order = sorted(range(len(segs)), key=lambda i: kv[i].value, reverse=bool(rev.value) if isinstance(rev, Const) else False)
+                return interp.alloc(HList([segs[i] for i in order]))
+            except TypeError:
+                pass
     r = interp.alloc(HList(segs))
     interp.deref(r).sorted_by = (desc(key) if key is not None else None, desc(rev) if rev is not None else None)
     return r
+
+
+@ext("itertools.groupby")
+def _groupby(interp, args, kwargs, node):
+    """Runs of consecutive elements with equal keys, for concrete elements; anything else stays an unknown call."""
+    key = args[1] if len(args) > 1 else kwargs.get("key")
+    segs = interp.segments(args[0], node)
+    if all(s[0] == "one" for s in segs):
+        kv = [interp.call(key, [s[1]], {}, node) if key is not None else s[1] for s in segs]
+        if all(isinstance(k, Const) for k in kv):
+            runs = []
+            for s, k in zip(segs, kv):
+                if runs and runs[-1][0].value == k.value and type(runs[-1][0].value) is type(k.value):
+                    runs[-1][1].append(s)
+                else:
+                    runs.append((k, [s]))
+            return interp.alloc(HList([("one", TupleV((k, interp.alloc(HList(list(run)))))) for k, run in runs]))
+    interp.log("call.unknown", node, func=Sym(("ext", "itertools.groupby")), args=tuple(args), kwargs=dict(kwargs))
+    return Sym(("call", "itertools.groupby", tuple(desc(a) for a in args), interp.fresh_id("c")))
 
 
 @ext("builtins.reversed")
@@ -885,11 +945,20 @@ def _tuple(interp, args, kwargs, node):
     return interp.alloc(HList(segs))
 
 
+@ext("builtins.vars")
+def _vars(interp, args, kwargs, node):
+    if len(args) == 1 and isinstance(args[0], Ref) and isinstance(interp.deref(args[0]), HObj):
+        return Ref(args[0].oid)  # the object seen as the dict of its attributes (like obj.__dict__)
+    interp.err(node, "vars() of something that is not an object of the repository")
+
+
 @ext("builtins.dict")
 def _dict(interp, args, kwargs, node):
     d = HDict()
     if args:
         src = args[0]
+        if isinstance(src, Ref) and isinstance(interp.deref(src), HObj) and not kwargs:
+            return objdict_method(interp, src, interp.deref(src), "copy", [], {}, node)  # dict(obj.__dict__) / dict(vars(obj))
         if isinstance(src, Ref) and isinstance(interp.deref(src), HDict):
             o = interp.deref(src)
             d = HDict(o.entries, o.each, o.sym)
@@ -1201,6 +1270,9 @@ for _n in ("pickle.dump", "json.dump"):
     def _dump(interp, args, kwargs, node, _n=_n):
         interp.log("persist.dump", node, how=_n, obj=args[0], fd=args[1] if len(args) > 1 else None, kwargs=dict(kwargs))
         may_raise(interp, node, "TypeError" if _n == "json.dump" else "PicklingError", (_n,))
+        if _n == "pickle.dump":
+            # pickling runs code of the members (__getstate__, __reduce__): it can fail with any exception
+            may_raise(interp, node, "Exception", (_n, "raised by a member"))
         return Const(None)
 
     EXTERNAL[_n] = _dump
@@ -1601,6 +1673,9 @@ def str_method(interp, obj, name, args, kwargs, node):
     if name == "join":
         a = args[0]
         if isinstance(a, Ref) and isinstance(interp.deref(a), HList):
+            segs_ = interp.deref(a).segs
+            if all(g[0] == "one" and isinstance(g[1], Const) and isinstance(g[1].value, str) for g in segs_) and not interp.deref(a).is_set:
+                return Const(s.join(g[1].value for g in segs_))
             return Sym(("join", s, interp.list_desc(interp.deref(a))), "str")
         return Sym(("join", s, desc(a)), "str")
     if name == "format":
